@@ -250,9 +250,8 @@ def uncertainty_tokenizer(input_string: str) -> Generator[TokenInfo, None, None]
                 end = possible_e.end
             else:
                 end = toklist.lookahead(seen_minus + 5).end
-            if seen_minus:
-                minus_op = next(toklist)
-                yield minus_op
+            open_paren = tokinfo
+            minus_op = next(toklist) if seen_minus else None
             nominal_value = next(toklist)
             tokinfo = next(toklist)  # consume '+'
             next(toklist)  # consume '/'
@@ -264,14 +263,19 @@ def uncertainty_tokenizer(input_string: str) -> Generator[TokenInfo, None, None]
                 line=line,
             )
             std_dev = next(toklist)
-            next(toklist)  # consume final ')'
+            close_paren = next(toklist)  # consume final ')'
             if possible_e:
                 nominal_value, std_dev = _finalize_e(
                     nominal_value, std_dev, toklist, possible_e
                 )
+            # the group stays a group: (2.0 +/- 0.1) ** 2 squares the measurement
+            yield open_paren
+            if minus_op is not None:
+                yield minus_op
             yield nominal_value
             yield plus_minus_op
             yield std_dev
+            yield close_paren
         elif (
             tokinfo.type == tokenlib.NUMBER
             and toklist.lookahead(0).string == "("
@@ -285,7 +289,7 @@ def uncertainty_tokenizer(input_string: str) -> Generator[TokenInfo, None, None]
             else:
                 end = toklist.lookahead(2).end
             nominal_value = tokinfo
-            tokinfo = next(toklist)  # consume '('
+            tokinfo = open_paren = next(toklist)  # consume '('
             plus_minus_op = tokenize.TokenInfo(
                 type=tokenlib.OP,
                 string="+/-",
@@ -310,14 +314,16 @@ def uncertainty_tokenizer(input_string: str) -> Generator[TokenInfo, None, None]
                     end=std_dev.end,
                     line=line,
                 )
-            next(toklist)  # consume final ')'
+            close_paren = next(toklist)  # consume final ')'
             if possible_e:
                 nominal_value, std_dev = _finalize_e(
                     nominal_value, std_dev, toklist, possible_e
                 )
+            yield open_paren
             yield nominal_value
             yield plus_minus_op
             yield std_dev
+            yield close_paren
         else:
             yield tokinfo
 
